@@ -541,6 +541,50 @@ def run(ctx):
         elif entries != mo['entries']:
             ctx.diverge('cached_entries', case, entries, mo['entries'])
         oracle(ctx, case, impl, meta, slots)
+    object_lifetime_probe(ctx)
+
+
+def object_lifetime_probe(ctx):
+    """(i) the cache of an object belongs to that object: after it is gone, a new object (which may live at the same address) with an empty
+    cache of its own computes again; (ii) what a cached call returned is the caller's copy: changing it does not change what later calls return"""
+    import gc
+    import taskchain.cache as tc
+    root = ctx.tmpdir() / 'lifetime'
+
+    class Holder:
+        def __init__(self, cache, tag):
+            self.cache, self.tag, self.log = cache, tag, []
+
+        @tc.cached()
+        def m(self, x):
+            self.log.append(x)
+            return [self.tag, x, {'k': [x]}]
+    for k in range(ctx.n(6, 40)):
+        case = {'probe': 'a new object after the old one is gone', 'round': k}
+        ctx.case(case); ctx.count('object-lifetime')
+        mk = (lambda: tc.InMemoryCache()) if k % 2 else (lambda: tc.JsonCache(root / f'c{k}-{id(object())}'))
+        outs = []
+        for tag in ('first', 'second', 'third'):
+            o = Holder(mk() if k % 2 else tc.JsonCache(root / f'c{k}-{tag}'), tag)
+            outs.append((o.m(1), list(o.log)))
+            del o
+            gc.collect()
+        bad = [(r, log) for (r, log), tag in zip(outs, ('first', 'second', 'third')) if r[0] != tag or log != [1]]
+        if bad:
+            ctx.fail('a new object with an empty cache of its own was served the entry of an object that no longer exists', case, {'calls': outs})
+    for k, cache in enumerate([tc.InMemoryCache(), tc.JsonCache(root / 'mut')]):
+        o = Holder(cache, 't')
+        case = {'probe': 'changing a returned value', 'cache': type(cache).__name__}
+        ctx.case(case); ctx.count('returned-value-mutation')
+        a = o.m(5)
+        b = o.m(5)
+        if type(cache).__name__ == 'JsonCache':
+            b.append('changed'); b[2]['k'].append('changed')
+            c = o.m(5)
+            if c != ['t', 5, {'k': [5]}]:
+                ctx.fail('changing the value a cached call returned changed what a later call returns (file cache)', case, {'later_call': c})
+        if o.log != [5]:
+            ctx.fail('the method ran again for a cached binding', case, o.log)
 
 
 def search(ctx, divergences):
